@@ -4,7 +4,6 @@ import (
 	"errors"
 	"fmt"
 	"net"
-	"strings"
 	"sync/atomic"
 	"time"
 
@@ -16,9 +15,10 @@ import (
 	"github.com/samaritan-proxy/samaritan/proc"
 	_ "github.com/samaritan-proxy/samaritan/proc/redis" // register the redis processor
 	sutredis "github.com/samaritan-proxy/samaritan/proc/redis"
-	"github.com/samaritan-proxy/samaritan/stats"
 
+	"verif/harness/portres"
 	"verif/harness/ref"
+	"verif/harness/statpurge"
 )
 
 var svcCounter int64
@@ -39,6 +39,7 @@ type Proxy struct {
 	Name string
 	Addr string
 	Cfg  *service.Config
+	res  *portres.Port
 }
 
 func init() {
@@ -75,18 +76,28 @@ func StartProxy(o ProxyOpts) (*Proxy, error) {
 		name = fmt.Sprintf("vsvc%d", atomic.AddInt64(&svcCounter, 1))
 	}
 	cfg := RedisConfig(o)
+	// The listener port stays reserved for this proxy until it was stopped (the service binds with SO_REUSEPORT, see
+	// package portres): after a drain or a stop no listener of a concurrently running check can get the port.
+	res, _ := portres.Reserve()
+	if res != nil {
+		cfg.Listener.Address.Port = uint32(res.Port)
+	}
 	hosts := make([]*host.Host, len(o.Seeds))
 	for i, a := range o.Seeds {
 		hosts[i] = host.New(a)
 	}
+	statpurge.Sweep()
 	p, err := proc.New(name, cfg, hosts)
 	if err != nil {
+		res.Release()
 		return nil, err
 	}
 	if err := p.Start(); err != nil {
+		statpurge.MarkStopped(name)
+		res.Release()
 		return nil, err
 	}
-	px := &Proxy{P: p, Name: name, Cfg: cfg}
+	px := &Proxy{P: p, Name: name, Cfg: cfg, res: res}
 	for i := 0; i < 5000; i++ {
 		if a := p.Address(); a != "" {
 			px.Addr = a
@@ -94,32 +105,15 @@ func StartProxy(o ProxyOpts) (*Proxy, error) {
 		}
 		time.Sleep(200 * time.Microsecond)
 	}
+	go func() { p.Stop(); statpurge.MarkStopped(name); res.Release() }()
 	return nil, errors.New("proxy did not start listening within 1s")
 }
 
 // Counter reads a counter of the proxy's stats by its name below "service.<name>.".
-func (p *Proxy) Counter(path string) uint64 {
-	i := strings.LastIndex(path, ".")
-	scope := "service." + p.Name + "."
-	name := path
-	if i >= 0 {
-		scope += path[:i+1]
-		name = path[i+1:]
-	}
-	return stats.CreateScope(scope).Counter(name).Value()
-}
+func (p *Proxy) Counter(path string) uint64 { return statpurge.Counter(p.Name, path) }
 
 // Gauge reads a gauge of the proxy's stats.
-func (p *Proxy) Gauge(path string) uint64 {
-	i := strings.LastIndex(path, ".")
-	scope := "service." + p.Name + "."
-	name := path
-	if i >= 0 {
-		scope += path[:i+1]
-		name = path[i+1:]
-	}
-	return stats.CreateScope(scope).Gauge(name).Value()
-}
+func (p *Proxy) Gauge(path string) uint64 { return statpurge.Gauge(p.Name, path) }
 
 // WaitTableLoaded waits until at least n slot refreshes succeeded.
 func (p *Proxy) WaitTableLoaded(n uint64, d time.Duration) bool {
@@ -139,6 +133,8 @@ func (p *Proxy) Stop(d time.Duration) bool {
 	go func() { p.P.Stop(); close(done) }()
 	select {
 	case <-done:
+		statpurge.MarkStopped(p.Name)
+		p.res.Release()
 		return true
 	case <-time.After(d):
 		return false
